@@ -1,6 +1,8 @@
 package wire
 
 import (
+	"strconv"
+
 	psqlerr "github.com/jeroenrinzema/psql-wire/errors"
 	"github.com/jeroenrinzema/psql-wire/pkg/buffer"
 	"github.com/jeroenrinzema/psql-wire/pkg/types"
@@ -68,13 +70,19 @@ func errorResponse(writer *buffer.Writer, err error) error {
 		writer.AddNullTerminate()
 	}
 
+	if desc.ConstraintName != "" {
+		writer.AddByte(byte(errFieldConstraintName))
+		writer.AddString(desc.ConstraintName)
+		writer.AddNullTerminate()
+	}
+
 	if desc.Source != nil {
 		writer.AddByte(byte(errFieldSrcFile))
 		writer.AddString(desc.Source.File)
 		writer.AddNullTerminate()
 
 		writer.AddByte(byte(errFieldSrcLine))
-		writer.AddInt32(desc.Source.Line)
+		writer.AddString(strconv.Itoa(int(desc.Source.Line)))
 		writer.AddNullTerminate()
 
 		writer.AddByte(byte(errFieldSrcFunction))
